@@ -126,10 +126,16 @@ def _m_range(*a):
                 return [a[0] + i for i in _range(max(0, n))]
         elif _isinstance(d, _int):
             return [a[0] + i for i in _range(max(0, d))]
-    if ALLOC_LOG is not None:
-        for x in a:
-            if _isinstance(x, SymInt) and x.lo != x.hi:
+    e = _ex._CUR
+    for x in a:
+        if _isinstance(x, SymInt) and x.lo != x.hi:
+            if ALLOC_LOG is not None:
                 ALLOC_LOG.append(("range", x))
+            if e is not None and e.tick_budget is not None and x.hi > e.tick_budget:
+                # an iteration count taken from symbolic data: more iterations than the step budget is a budget
+                # overrun by itself (decided by the solver), not something to enumerate value by value
+                if x > e.tick_budget:
+                    raise _ex.BudgetExceeded()
     return _range(*[conc(x) for x in a])
 
 
